@@ -42,6 +42,12 @@ type CPKnobs struct {
 	SchedSeed uint64     `json:"sched_seed"`
 	Repeats   int        `json:"repeats"`
 	CrossBE   bool       `json:"cross_backend"` // also create the checkpoint on the other backend and compare metadata
+	// After lists what happens to the destination database after the restored root was finalized
+	// (the database lives on): "commit" (a further version derived from the latest root is
+	// committed and finalized), "abort" (a later restore is started at the next version and
+	// aborted), "partial" (the same with some chunks of another checkpoint restored before the
+	// abort), "reopen". Every finalized root must stay readable with its contents.
+	After []string `json:"after,omitempty"`
 	// StaleChunkSize > 0: before the checkpoint is created its directory already holds the chunk
 	// files (but no metadata file) of a creation of the same root with these other parameters
 	// that died before it wrote the metadata (or of a DeleteCheckpoint that died after removing it).
@@ -151,6 +157,12 @@ func (CheckpointEngine) Generate(r *core.Rand, tier core.Tier) *core.Scenario {
 			k.StaleChunkSize = uint64(r.Range(1, int(k.ChunkSize)))
 		}
 		k.StaleThreads = uint16(r.Pick([]int{2, 2, 1}) * r.Range(0, 4))
+	}
+	if r.Chance(1, 2) {
+		ar := core.NewRand(k.SchedSeed ^ 0xaf7e4)
+		for i, n := 0, ar.Range(2, 7); i < n; i++ {
+			k.After = append(k.After, []string{"commit", "commit", "abort", "partial", "reopen"}[ar.Intn(5)])
+		}
 	}
 	sc := &core.Scenario{Engine: "checkpoint", Knobs: core.MustJSON(k)}
 	nops := r.Range(0, 12)
@@ -367,7 +379,11 @@ func (CheckpointEngine) Execute(sc *core.Scenario, st *core.Stats) (*core.Violat
 	base := ScratchDir("cp")
 	defer os.RemoveAll(base)
 
+	var buildAt func(backend, name string, ts []RHTarget, version uint64) (dbapi.NodeDB, node.Root, Model)
 	build := func(backend, name string, ts []RHTarget) (dbapi.NodeDB, node.Root, Model) {
+		return buildAt(backend, name, ts, k.Version)
+	}
+	buildAt = func(backend, name string, ts []RHTarget, version uint64) (dbapi.NodeDB, node.Root, Model) {
 		dir := filepath.Join(base, name)
 		_ = os.MkdirAll(dir, 0o755)
 		ndb := OpenDB(backend, dir)
@@ -381,12 +397,12 @@ func (CheckpointEngine) Execute(sc *core.Scenario, st *core.Stats) (*core.Violat
 				core.Harnessf("checkpoint: build insert: %v", err)
 			}
 		}
-		_, h, err := t.Commit(ctx, Namespace, k.Version)
+		_, h, err := t.Commit(ctx, Namespace, version)
 		if err != nil {
 			core.Harnessf("checkpoint: build commit: %v", err)
 		}
 		t.Close()
-		root := node.Root{Namespace: Namespace, Version: k.Version, Type: rootType, Hash: h}
+		root := node.Root{Namespace: Namespace, Version: version, Type: rootType, Hash: h}
 		if err := ndb.Finalize([]node.Root{root}); err != nil {
 			core.Harnessf("checkpoint: build finalize: %v", err)
 		}
@@ -753,6 +769,11 @@ func (CheckpointEngine) Execute(sc *core.Scenario, st *core.Stats) (*core.Violat
 				fin1, err1 := restoreOne(i1, chunks[i1], meta)
 				verifhook.SetHandler(nil)
 				st.Event("concurrent %d,%d at=%s err=%v,%v", i1, i2, op.At, err1 != nil, err2 != nil)
+				if !fired && err1 != nil {
+					// The first call was refused before it reached the hook: an honest chunk rejected.
+					v = cpViol("honest-chunk-rejected", fmt.Sprintf("step %d: honest chunk %d rejected: %v", stepIdx, i1, err1))
+					return
+				}
 				if !fired {
 					core.Harnessf("checkpoint: hook %s did not fire", op.At)
 				}
@@ -850,6 +871,101 @@ func (CheckpointEngine) Execute(sc *core.Scenario, st *core.Stats) (*core.Violat
 				v = cpViol("metadata-backend-dependent", fmt.Sprintf("checkpoint of the restored database (%s) differs from the original checkpoint (%s) for the same root and parameters", k.Dst, k.Src))
 				return
 			}
+		}
+		if v != nil || root.Hash.IsEmpty() {
+			return
+		}
+		// The database lives on.
+		type fin struct {
+			root node.Root
+			m    Model
+		}
+		finals := []fin{{root, contents}}
+		cur, curM := root, contents
+		ar := core.NewRand(k.SchedSeed ^ 0x11fe)
+		for ai, a := range k.After {
+			if a == "commit" && rootType != node.RootTypeState {
+				continue // (I/O roots are derived from the empty root, not from each other)
+			}
+			switch a {
+			case "commit":
+				nm := Model{}
+				for kk, vv := range curM {
+					nm[kk] = vv
+				}
+				tr := mkvs.NewWithRoot(nil, dst, cur)
+				for j, m := 0, ar.Range(1, 3); j < m; j++ {
+					key := keys[ar.Intn(len(keys))]
+					val := Value(200000+ai*10+j, ar.Range(1, 20))
+					nm[string(key)] = val
+					if err := tr.Insert(ctx, key, val); err != nil {
+						tr.Close()
+						v = cpViol("afterlife-commit-error", fmt.Sprintf("afterlife step %d: insert into a tree at the latest finalized root failed: %v", ai, err))
+						return
+					}
+				}
+				_, h, err := tr.Commit(ctx, Namespace, cur.Version+1)
+				tr.Close()
+				if err != nil {
+					v = cpViol("afterlife-commit-error", fmt.Sprintf("afterlife step %d: commit of version %d on top of the restored database failed: %v", ai, cur.Version+1, err))
+					return
+				}
+				nr := node.Root{Namespace: Namespace, Version: cur.Version + 1, Type: rootType, Hash: h}
+				if err := dst.Finalize([]node.Root{nr}); err != nil {
+					v = cpViol("afterlife-commit-error", fmt.Sprintf("afterlife step %d: finalize of version %d failed: %v", ai, nr.Version, err))
+					return
+				}
+				cur, curM = nr, nm
+				finals = append(finals, fin{nr, nm})
+				st.Inc("probe.afterlife_commit")
+			case "abort", "partial":
+				if err := dst.StartMultipartInsert(cur.Version + 1); err != nil {
+					v = cpViol("afterlife-restore-start-error", fmt.Sprintf("afterlife step %d: StartMultipartInsert(%d) on a database whose latest version is %d failed: %v", ai, cur.Version+1, cur.Version, err))
+					return
+				}
+				if a == "partial" && len(k.Other) > 0 {
+					// Some chunks of a checkpoint of another tree at that version.
+					odb, oroot, _ := buildAt(k.Src, fmt.Sprintf("after%d", ai), k.Other, cur.Version+1)
+					ocr, oerr := checkpoint.NewFileCreator(filepath.Join(base, fmt.Sprintf("cpafter%d", ai)), odb)
+					if oerr != nil {
+						core.Harnessf("checkpoint: NewFileCreator: %v", oerr)
+					}
+					if ometa, err := ocr.CreateCheckpoint(ctx, oroot, k.ChunkSize, 0); err == nil {
+						rs, _ := checkpoint.NewRestorer(dst)
+						if err := rs.StartRestore(ctx, ometa); err == nil {
+							for ci, cnt := 0, ar.Range(1, 3); ci < len(ometa.Chunks)-1 && cnt > 0; ci, cnt = ci+1, cnt-1 {
+								cm, _ := ometa.GetChunkMetadata(uint64(ci))
+								if b, err := chunkBytes(ctx, ocr, cm); err == nil {
+									if _, err := rs.RestoreChunk(ctx, uint64(ci), bytesReader(b)); err == nil {
+										st.Inc("probe.afterlife_foreign_chunk_restored")
+									}
+								}
+							}
+							_ = rs.AbortRestore(ctx)
+						}
+					}
+					odb.Close()
+				}
+				if err := dst.AbortMultipartInsert(); err != nil {
+					v = cpViol("abort-error", fmt.Sprintf("afterlife step %d: AbortMultipartInsert failed: %v", ai, err))
+					return
+				}
+				st.Inc("probe.afterlife_later_restore_aborted")
+			case "reopen":
+				dst.Close()
+				dst = OpenDB(k.Dst, dstDir)
+				st.Inc("probe.afterlife_reopen")
+			}
+			for _, f := range finals {
+				tr := mkvs.NewWithRoot(nil, dst, f.root)
+				err := CompareDump(ctx, tr, f.m)
+				tr.Close()
+				if err != nil {
+					v = cpViol("finalized-unreadable-after-later-operation", fmt.Sprintf("restored database (%s, %d chunks, %d pairs): after afterlife step %d (%s; steps %v) the finalized root of version %d (restored at version %d) is no longer readable with its contents: %v", k.Dst, n, len(contents), ai, a, k.After[:ai+1], f.root.Version, root.Version, err))
+					return
+				}
+			}
+			st.Inc("probe.afterlife_step_checked")
 		}
 	})
 	if pv != nil {
